@@ -3,8 +3,12 @@ import FluentProofs.Cache
 # Lemmas about the cache LTS: wake-up bookkeeping (no lost wake-up), progress, bounded drain
 
 `WakeInv x s` is the bookkeeping invariant of `pending_wakes`, stated as the code makes it true.
-`x = some c` is the intermediate form that holds while task `c` is being polled (after the executor
+`x = some c` is the intermediate form that holds while consumer `c` is being polled (after the executor
 cleared `woken c`, before `poll_next` has either delivered or re-registered `c`'s waker).
+
+Wakers are shared: consumer `c` is polled with the waker of task `s.grp c`, and waker `w` wakes every
+consumer `t` with `s.grp t = w`.  `pending_wakes` and the source hold waker ids; everything below holds
+for every waker assignment `grp` (`grp = id`: one waker per consumer).
 -/
 namespace FluentProofs.Cache
 open FluentModel.Cache
@@ -14,38 +18,55 @@ variable {α : Type}
 /-- a request that returned `Pending` and whose task has not been woken since -/
 def Parked (s : St α) (t : Task) : Prop := (s.cons t).waiting = true ∧ (s.cons t).woken = false
 
+/-- waker `w` belongs to (at least) one waiting request that stands at the end of the cache: some
+consumer polled with `w` waits there -/
+def Backed (s : St α) (w : Task) : Prop :=
+  ∃ t, s.grp t = w ∧ (s.cons t).waiting = true ∧ (s.cons t).curr = s.items.length
+
+theorem Backed.transfer {s s' : St α} {w : Task} (hg : s'.grp = s.grp)
+    (hi : s'.items.length = s.items.length)
+    (hc : ∀ t, (s.cons t).waiting = true → (s.cons t).curr = s.items.length →
+      (s'.cons t).waiting = true ∧ (s'.cons t).curr = (s.cons t).curr)
+    (h : Backed s w) : Backed s' w := by
+  obtain ⟨t, h1, h2, h3⟩ := h
+  have := hc t h2 h3
+  exact ⟨t, by rw [hg]; exact h1, this.1, by rw [this.2, hi]; exact h3⟩
+
 structure WakeInv (x : Option Task) (s : St α) : Prop where
   /-- only requests in flight wait -/
   act : ∀ t, (s.cons t).waiting = true → (s.cons t).active = true
   /-- every waker in `pending_wakes` belongs to a waiting request that stands at the end of the cache -/
-  pend : ∀ t, t ∈ s.pending → (s.cons t).waiting = true ∧ (s.cons t).curr = s.items.length
-  /-- every parked request stands at the end of the cache and its waker is in `pending_wakes` -/
-  park : ∀ t, x ≠ some t → Parked s t → (s.cons t).curr = s.items.length ∧ t ∈ s.pending
-  /-- the waker the source holds is the last one registered (also in `pending_wakes`), its request
-  waits at the end of the cache, and the source really is pending -/
-  srcw : ∀ w, s.src.waker = some w → s.src.need ≠ 0 ∧ (s.cons w).waiting = true ∧
-      (s.cons w).curr = s.items.length ∧ s.pending.getLast? = some w
+  pend : ∀ w, w ∈ s.pending → Backed s w
+  /-- every parked request stands at the end of the cache and its waker `grp t` is in `pending_wakes` -/
+  park : ∀ t, x ≠ some t → Parked s t → (s.cons t).curr = s.items.length ∧ s.grp t ∈ s.pending
+  /-- the waker the source holds is the last one registered (also in `pending_wakes`), a request polled
+  with it waits at the end of the cache, and the source really is pending -/
+  srcw : ∀ w, s.src.waker = some w → s.src.need ≠ 0 ∧ Backed s w ∧ s.pending.getLast? = some w
   /-- while anybody is parked, either the source holds a waker, or a waiting request at the end of
   the cache is runnable (or is the one being polled right now) -/
   hope : (∃ t, x ≠ some t ∧ Parked s t) → s.src.waker ≠ none ∨
       ∃ w, (s.cons w).waiting = true ∧ (s.cons w).curr = s.items.length ∧
         ((s.cons w).woken = true ∨ x = some w)
 
-theorem wakeInv_init (script : List (Nat × α)) (e : Nat) : WakeInv none (init script e) := by
+theorem wakeInv_init (script : List (Nat × α)) (e : Nat) (grp : Task → Task := id) :
+    WakeInv none (init script e grp) := by
   constructor <;> simp [init, Parked]
 
 /-- consumer `c` stops waiting somewhere else than at the end of the cache; nothing else changes -/
 theorem wakeInv_leave {s : St α} {c : Task} (f : Consumer α → Consumer α)
     (hne : (s.cons c).curr ≠ s.items.length) (hf : (f (s.cons c)).waiting = false)
     (hs : WakeInv (some c) s) : WakeInv none (s.modCons c f) := by
-  have hpc : c ∉ s.pending := fun h => hne (hs.pend c h).2
+  have hb : ∀ w, Backed s w → Backed (s.modCons c f) w := by
+    intro w
+    refine Backed.transfer rfl rfl ?_
+    intro t h1 h2
+    have ht : t ≠ c := fun e => hne (e ▸ h2)
+    simp [ht, h1]
   refine ⟨?_, ?_, ?_, ?_, ?_⟩
   · intro t; by_cases ht : t = c
     · subst ht; simp [hf]
     · simpa [ht] using hs.act t
-  · intro t htp
-    have ht : t ≠ c := fun h => hpc (h ▸ htp)
-    simpa [ht] using hs.pend t htp
+  · intro w hw; exact hb w (hs.pend w hw)
   · intro t _ hp
     by_cases ht : t = c
     · subst ht; simp [Parked, hf] at hp
@@ -53,8 +74,7 @@ theorem wakeInv_leave {s : St α} {c : Task} (f : Consumer α → Consumer α)
       simpa [ht] using hs.park t (by simp [Ne.symm ht]) this
   · intro w hw
     have h := hs.srcw w hw
-    have ht : w ≠ c := fun e => hne (e ▸ h.2.2.1)
-    simpa [ht] using h
+    exact ⟨h.1, hb w h.2.1, h.2.2⟩
   · rintro ⟨t, _, hp⟩
     have ht : t ≠ c := by
       intro e; subst e; simp [Parked, hf] at hp
@@ -81,6 +101,21 @@ theorem no_parked_after_ready {s : St α} {c : Task} (hs : WakeInv (some c) s) (
     have := hs.park t (by simp [Ne.symm ht]) ⟨hp.1, hp.2.1⟩
     exact hp.2.2 this.2
 
+/-- a poll that returns `Pending` keeps every waker's waiting request … -/
+theorem backed_park {s : St α} {c w : Task} (src' : Source α) (p : List Task) :
+    Backed s w → Backed (St.modCons { s with src := src', pending := p } c park) w := by
+  refine Backed.transfer rfl rfl ?_
+  intro t h1 h2
+  by_cases ht : t = c
+  · subst ht; simp
+  · simp [ht, h1]
+
+/-- … and its own waker now belongs to the polled request -/
+theorem backed_park_self {s : St α} {c : Task} (src' : Source α) (p : List Task)
+    (h : (s.cons c).curr = s.items.length) :
+    Backed (St.modCons { s with src := src', pending := p } c park) (s.grp c) :=
+  ⟨c, rfl, by simp, by simp [h]⟩
+
 theorem wakeInv_pollNext {s : St α} {c : Task} (hact : (s.cons c).active = true)
     (hs : WakeInv (some c) s) : WakeInv none (pollNext s c).1 := by
   have hc := pollNext_cases s c
@@ -90,15 +125,17 @@ theorem wakeInv_pollNext {s : St α} {c : Task} (hact : (s.cons c).active = true
   | over h => exact wakeInv_leave _ (by omega) rfl hs
   | pend src' h hp =>
     obtain ⟨hn, rfl⟩ := poll_pending hp
+    have hself := backed_park_self (s := s) (c := c)
+      { s.src with waker := some (s.grp c), polls := s.src.polls + 1 } (s.pending ++ [s.grp c]) h
     refine ⟨?_, ?_, ?_, ?_, ?_⟩
     · intro t; by_cases ht : t = c
       · subst ht; simp [hact]
       · simpa [ht] using hs.act t
-    · intro t htp
-      by_cases ht : t = c
-      · subst ht; simp [h]
-      · have : t ∈ s.pending := by simpa [ht] using htp
-        simpa [ht] using hs.pend t this
+    · intro w hw
+      have hw' : w ∈ s.pending ∨ w = s.grp c := by simpa using hw
+      rcases hw' with hw' | rfl
+      · exact backed_park _ _ (hs.pend w hw')
+      · exact hself
     · intro t _ hp
       by_cases ht : t = c
       · subst ht; simp [h]
@@ -106,9 +143,9 @@ theorem wakeInv_pollNext {s : St α} {c : Task} (hact : (s.cons c).active = true
         have := hs.park t (by simp [Ne.symm ht]) hp'
         simp [ht, this]
     · intro w hw
-      have hw' : w = c := by simpa using hw.symm
+      have hw' : w = s.grp c := by simpa using hw.symm
       subst hw'
-      refine ⟨?_, by simp, by simp [h], by simp⟩
+      refine ⟨?_, hself, by simp⟩
       simpa [Source.need] using hn
     · intro _; left; simp
   | item src' it h hp =>
@@ -149,22 +186,25 @@ theorem wakeInv_pollNext {s : St α} {c : Task} (hact : (s.cons c).active = true
 theorem wakeInv_clearWoken {s : St α} (c : Task) (hs : WakeInv none s) :
     WakeInv (some c) (clearWoken s c) := by
   unfold clearWoken
+  have hb : ∀ w, Backed s w → Backed (s.modCons c fun k => { k with woken := false }) w := by
+    intro w
+    refine Backed.transfer rfl rfl ?_
+    intro t h1 h2
+    by_cases ht : t = c
+    · subst ht; simp [h1]
+    · simp [ht, h1]
   refine ⟨?_, ?_, ?_, ?_, ?_⟩
   · intro t; by_cases ht : t = c
     · subst ht; simpa using hs.act t
     · simpa [ht] using hs.act t
-  · intro t htp; by_cases ht : t = c
-    · subst ht; simpa using hs.pend t htp
-    · simpa [ht] using hs.pend t htp
+  · intro w hw; exact hb w (hs.pend w hw)
   · intro t hx hp
     have ht : t ≠ c := fun e => hx (by rw [e])
     have hp' : Parked s t := by simpa [Parked, ht] using hp
     simpa [ht] using hs.park t (by simp) hp'
   · intro w hw
     have h := hs.srcw w hw
-    by_cases ht : w = c
-    · subst ht; simpa using h
-    · simpa [ht] using h
+    exact ⟨h.1, hb w h.2.1, h.2.2⟩
   · rintro ⟨t, hx, hp⟩
     have ht : t ≠ c := fun e => hx (by rw [e])
     have hp' : Parked s t := by simpa [Parked, ht] using hp
@@ -197,14 +237,18 @@ theorem wakeInv_startReq {s : St α} (c : Task) (d : Nat) (hs : WakeInv none s) 
   · exact hs
   · rename_i hna
     have hnw : (s.cons c).waiting ≠ true := fun h => hna (hs.act c h)
-    have hpc : c ∉ s.pending := fun h => hnw (hs.pend c h).1
+    have hb : ∀ w, Backed s w → Backed (s.modCons c fun k =>
+        { k with active := true, want := d, curr := 0, waiting := false, got := [] }) w := by
+      intro w
+      refine Backed.transfer rfl rfl ?_
+      intro t h1 h2
+      have ht : t ≠ c := fun e => hnw (e ▸ h1)
+      simp [ht, h1]
     refine ⟨?_, ?_, ?_, ?_, ?_⟩
     · intro t; by_cases ht : t = c
       · subst ht; simp
       · simpa [ht] using hs.act t
-    · intro t htp
-      have ht : t ≠ c := fun h => hpc (h ▸ htp)
-      simpa [ht] using hs.pend t htp
+    · intro w hw; exact hb w (hs.pend w hw)
     · intro t _ hp
       by_cases ht : t = c
       · subst ht; simp [Parked] at hp
@@ -212,8 +256,7 @@ theorem wakeInv_startReq {s : St α} (c : Task) (d : Nat) (hs : WakeInv none s) 
         simpa [ht] using hs.park t (by simp) hp'
     · intro w hw
       have h := hs.srcw w hw
-      have ht : w ≠ c := fun e => hnw (e ▸ h.2.1)
-      simpa [ht] using h
+      exact ⟨h.1, hb w h.2.1, h.2.2⟩
     · rintro ⟨t, _, hp⟩
       have ht : t ≠ c := by
         intro e; subst e; simp [Parked] at hp
@@ -232,13 +275,18 @@ theorem wakeInv_finishReq {s : St α} (c : Task) (hs : WakeInv none s) :
   split
   · exact hs
   · rename_i hnw
+    have hb : ∀ w, Backed s w → Backed (s.modCons c fun k => { k with active := false }) w := by
+      intro w
+      refine Backed.transfer rfl rfl ?_
+      intro t h1 h2
+      by_cases ht : t = c
+      · subst ht; simp [h1]
+      · simp [ht, h1]
     refine ⟨?_, ?_, ?_, ?_, ?_⟩
     · intro t; by_cases ht : t = c
       · subst ht; intro h; simp at h; exact absurd h hnw
       · simpa [ht] using hs.act t
-    · intro t htp; by_cases ht : t = c
-      · subst ht; simpa using hs.pend t htp
-      · simpa [ht] using hs.pend t htp
+    · intro w hw; exact hb w (hs.pend w hw)
     · intro t _ hp
       by_cases ht : t = c
       · subst ht
@@ -248,9 +296,7 @@ theorem wakeInv_finishReq {s : St α} (c : Task) (hs : WakeInv none s) :
         simpa [ht] using hs.park t (by simp) hp'
     · intro w hw
       have h := hs.srcw w hw
-      by_cases ht : w = c
-      · subst ht; simpa using h
-      · simpa [ht] using h
+      exact ⟨h.1, hb w h.2.1, h.2.2⟩
     · rintro ⟨t, _, hp⟩
       have hp' : Parked s t := by
         by_cases ht : t = c
@@ -287,23 +333,28 @@ theorem wakeInv_fireSrc {s : St α} (hs : WakeInv none s) : WakeInv none (fireSr
         · exact Or.inr h
     | some w =>
       have hsw := hs.srcw w hw
+      have hb : ∀ w', Backed s w' → Backed (St.wake { s with src := src' } w) w' := by
+        intro w'
+        refine Backed.transfer rfl rfl ?_
+        intro t h1 h2
+        by_cases ht : s.grp t = w
+        · simp [ht, h1]
+        · simp [ht, h1]
       refine ⟨?_, ?_, ?_, ?_, ?_⟩
-      · intro t; by_cases ht : t = w
-        · subst ht; simpa using hs.act t
+      · intro t; by_cases ht : s.grp t = w
         · simpa [ht] using hs.act t
-      · intro t htp
-        have := hs.pend t (by simpa using htp)
-        by_cases ht : t = w
-        · subst ht; simpa using this
-        · simpa [ht] using this
+        · simpa [ht] using hs.act t
+      · intro w' hw'; exact hb w' (hs.pend w' hw')
       · intro t _ hp
-        by_cases ht : t = w
-        · subst ht; simp [Parked] at hp
+        by_cases ht : s.grp t = w
+        · simp [Parked, ht] at hp
         · have hp' : Parked s t := by simpa [Parked, ht] using hp
           simpa [ht] using hs.park t (by simp) hp'
       · intro w' hw'; simp [hwn] at hw'
       · intro _
-        exact Or.inr ⟨w, by simpa using hsw.2.1, by simpa using hsw.2.2.1, Or.inl (by simp)⟩
+        -- the source's waker belongs to a waiting request at the end of the cache: it is runnable now
+        obtain ⟨t, hg, h1, h2⟩ := hsw.2.1
+        exact Or.inr ⟨t, by simpa [hg] using h1, by simpa [hg] using h2, Or.inl (by simp [hg])⟩
 
 theorem wakeInv_step {s : St α} (l : Label) (hs : WakeInv none s) : WakeInv none (step s l) := by
   cases l with
@@ -325,10 +376,11 @@ theorem wakeInv_run {s : St α} (ls : List Label) (hs : WakeInv none s) : WakeIn
   | cons l r ih => exact ih (wakeInv_step l hs)
 
 /-- Progress: while a request is waiting, either a waiting request's task is runnable, or the source is
-pending and holds the waker of a parked request (so the source's next event makes that task runnable). -/
+pending and holds the waker `grp t` of a parked request `t` (so the source's next event makes that
+request's task runnable). -/
 theorem progress_of_wakeInv {s : St α} (hs : WakeInv none s) (c : Task) (hc : (s.cons c).waiting = true) :
-    (∃ w, (s.cons w).waiting = true ∧ (s.cons w).woken = true) ∨
-    (s.src.need ≠ 0 ∧ ∃ w, s.src.waker = some w ∧ Parked s w) := by
+    (∃ t, (s.cons t).waiting = true ∧ (s.cons t).woken = true) ∨
+    (s.src.need ≠ 0 ∧ ∃ t, s.src.waker = some (s.grp t) ∧ Parked s t) := by
   cases hcw : (s.cons c).woken with
   | true => exact Or.inl ⟨c, hc, hcw⟩
   | false =>
@@ -336,10 +388,10 @@ theorem progress_of_wakeInv {s : St α} (hs : WakeInv none s) (c : Task) (hc : (
     · cases hw : s.src.waker with
       | none => exact absurd hw h
       | some w =>
-        have := hs.srcw w hw
-        cases hww : (s.cons w).woken with
-        | true => exact Or.inl ⟨w, this.2.1, hww⟩
-        | false => exact Or.inr ⟨this.1, w, rfl, this.2.1, hww⟩
+        obtain ⟨hn, ⟨t, hg, ht1, _⟩, _⟩ := hs.srcw w hw
+        cases hww : (s.cons t).woken with
+        | true => exact Or.inl ⟨t, ht1, hww⟩
+        | false => exact Or.inr ⟨hn, t, by rw [hg], ht1, hww⟩
     · rcases hw3 with h | h
       · exact Or.inl ⟨w, hw1, h⟩
       · cases h
@@ -356,9 +408,20 @@ def nWaiting (k : Nat) (s : St α) : Nat := (List.range k).countP fun t => (s.co
 def nRunnable (k : Nat) (s : St α) : Nat :=
   (List.range k).countP fun t => (s.cons t).waiting && (s.cons t).woken
 
-/-- the measure -/
+/-- the measure, for wakers that are each shared by at most `g` of the consumers `< k` (one source
+event can make up to `g` waiting requests runnable) -/
+def measureG (g k : Nat) (s : St α) : Nat :=
+  (g + 1) * totalNeed s.src + (k + 1) * nWaiting k s + nRunnable k s
+
+/-- the measure for wakers that are not shared (`g = 1`) -/
 def measure (k : Nat) (s : St α) : Nat :=
   2 * totalNeed s.src + (k + 1) * nWaiting k s + nRunnable k s
+
+theorem measureG_one (k : Nat) (s : St α) : measureG 1 k s = measure k s := rfl
+
+/-- every waker is shared by at most `g` of the consumers `< k` -/
+def GroupBound (g k : Nat) (grp : Task → Task) : Prop :=
+  ∀ w, (List.range k).countP (fun t => decide (grp t = w)) ≤ g
 
 /-- a step a fair executor / an eventually-yielding source takes: poll a task `< k` whose waiting
 request has been woken, or deliver an event to a pending source -/
@@ -390,6 +453,44 @@ theorem countP_update (p p' : Nat → Bool) (k c : Nat) (hc : c < k) (h : ∀ t,
 theorem countP_range_le (p : Nat → Bool) (k : Nat) : (List.range k).countP p ≤ k := by
   have := List.countP_le_length (p := p) (l := List.range k)
   simpa using this
+
+/-- no waker is shared by more than all `k` consumers -/
+theorem groupBound_self (k : Nat) (grp : Task → Task) : GroupBound k k grp :=
+  fun _ => countP_range_le _ k
+
+/-- one waker per consumer -/
+theorem groupBound_id (k : Nat) : GroupBound 1 k id := by
+  intro w
+  induction k with
+  | zero => simp
+  | succ k ih =>
+    simp only [List.range_succ, List.countP_append, List.countP_cons, List.countP_nil, id]
+    by_cases hk : k = w
+    · subst hk
+      have : (List.range k).countP (fun t => decide (t = k)) = 0 := by
+        apply List.countP_eq_zero.2
+        intro t ht
+        have := List.mem_range.1 ht
+        simp; omega
+      simp [this]
+    · simp only [id] at ih
+      simp [hk]; exact ih
+
+theorem countP_le_add (l : List Nat) (p' p q : Nat → Bool)
+    (h : ∀ t ∈ l, p' t = true → p t = true ∨ q t = true) :
+    l.countP p' ≤ l.countP p + l.countP q := by
+  induction l with
+  | nil => simp
+  | cons a r ih =>
+    have ih := ih (fun t ht => h t (List.mem_cons_of_mem _ ht))
+    have ha := h a (List.mem_cons_self ..)
+    simp only [List.countP_cons]
+    cases hp' : p' a with
+    | false => simp; omega
+    | true =>
+      rcases ha hp' with h1 | h1
+      · simp [h1]; omega
+      · simp [h1]; omega
 
 theorem nRunnable_le_nWaiting (k : Nat) (s : St α) : nRunnable k s ≤ nWaiting k s := by
   unfold nRunnable nWaiting
@@ -452,13 +553,18 @@ theorem nRunnable_congr (k : Nat) (s s' : St α)
 
 theorem toNat_le_one (b : Bool) : b.toNat ≤ 1 := by cases b <;> simp
 
-theorem arith_leave {k N W V W' V' : Nat} (hW : W' + 1 = W) (hWk : W ≤ k) (hV : V' ≤ W') (hV1 : 1 ≤ V) :
-    2 * N + (k + 1) * W' + V' < 2 * N + (k + 1) * W + V := by
+theorem arith_leave {k M W V W' V' : Nat} (hW : W' + 1 = W) (hWk : W ≤ k) (hV : V' ≤ W') (hV1 : 1 ≤ V) :
+    M + (k + 1) * W' + V' < M + (k + 1) * W + V := by
   subst hW; rw [Nat.mul_succ]; omega
 
+theorem arith_fire {g N N' M V V' : Nat} (hN : N' + 1 = N) (hV : V' ≤ V + g) :
+    (g + 1) * N' + M + V' < (g + 1) * N + M + V := by
+  subst hN; rw [Nat.mul_succ]; omega
+
 /-- a useful step strictly decreases the measure -/
-theorem measure_decreases {k : Nat} {s : St α} {l : Label} (hs : WakeInv none s) (hu : Useful k s l) :
-    measure k (step s l) < measure k s := by
+theorem measure_decreases {g k : Nat} {s : St α} {l : Label} (hs : WakeInv none s)
+    (hg : GroupBound g k s.grp) (hu : Useful k s l) :
+    measureG g k (step s l) < measureG g k s := by
   cases l with
   | start c d => exact absurd hu (by simp [Useful])
   | finish c => exact absurd hu (by simp [Useful])
@@ -472,32 +578,26 @@ theorem measure_decreases {k : Nat} {s : St α} {l : Label} (hs : WakeInv none s
       | none =>
         have hW : nWaiting k { s with src := src' } = nWaiting k s := rfl
         have hV : nRunnable k { s with src := src' } = nRunnable k s := rfl
-        simp only [measure, hW, hV]
-        omega
+        simp only [measureG, hW, hV]
+        exact arith_fire hN (Nat.le_add_right _ _)
       | some w =>
         have hW : nWaiting k (St.wake { s with src := src' } w) = nWaiting k s :=
           nWaiting_congr k s _ (by
             intro t
-            by_cases ht : t = w
-            · subst ht; simp
+            by_cases ht : s.grp t = w
+            · simp [ht]
             · simp [ht])
-        have hV : nRunnable k (St.wake { s with src := src' } w) ≤ nRunnable k s + 1 := by
-          by_cases hwk : w < k
-          · have := nRunnable_update k s (St.wake { s with src := src' } w) w hwk
-              (by intro t ht; simp [ht])
-            have := toNat_le_one ((s.cons w).waiting && (s.cons w).woken)
-            have := toNat_le_one (((St.wake { s with src := src' } w).cons w).waiting &&
-                ((St.wake { s with src := src' } w).cons w).woken)
-            omega
-          · apply Nat.le_succ_of_le
-            apply Nat.le_of_eq
-            apply nRunnable_congr
-            intro t ht
-            have : t ≠ w := by intro e; subst e; exact hwk ht
-            simp [this]
+        -- the waker makes at most its `g` consumers runnable
+        have hV : nRunnable k (St.wake { s with src := src' } w) ≤ nRunnable k s + g := by
+          refine Nat.le_trans (countP_le_add _ _ (fun t => (s.cons t).waiting && (s.cons t).woken)
+            (fun t => decide (s.grp t = w)) ?_) (Nat.add_le_add_left (hg w) _)
+          intro t _ h
+          by_cases ht : s.grp t = w
+          · exact Or.inr (by simp [ht])
+          · exact Or.inl (by simpa [ht] using h)
         have hsrc : (St.wake { s with src := src' } w).src = src' := rfl
-        simp only [measure, hsrc, hW]
-        omega
+        simp only [measureG, hsrc, hW]
+        exact arith_fire hN hV
   | poll c fresh =>
     obtain ⟨rfl, hck, hcw, hcwk⟩ := hu
     have hact := hs.act c hcw
@@ -521,12 +621,12 @@ theorem measure_decreases {k : Nat} {s : St α} {l : Label} (hs : WakeInv none s
     -- `c` leaves the waiting set, all other waiting flags stay
     have leave : ∀ s' : St α, (s'.cons c).waiting = false →
         (∀ t, t ≠ c → (s'.cons t).waiting = (s1.cons t).waiting) →
-        totalNeed s'.src = totalNeed s1.src → measure k s' < measure k s := by
+        totalNeed s'.src = totalNeed s1.src → measureG g k s' < measureG g k s := by
       intro s' h1 h2 h3
       have := nWaiting_update k s1 s' c hck h2
       simp only [h1, hcw1, Bool.toNat_true, Bool.toNat_false] at this
       have hW : nWaiting k s' + 1 = nWaiting k s := by omega
-      simp only [measure, h3, hN1]
+      simp only [measureG, h3, hN1]
       exact arith_leave hW hWk (nRunnable_le_nWaiting k s') hV0
     have hc := pollNext_cases s1 c
     generalize pollNext s1 c = r at hc
@@ -539,22 +639,22 @@ theorem measure_decreases {k : Nat} {s : St α} {l : Label} (hs : WakeInv none s
       exact leave _ (by simp) (by intro t ht; simp [ht, wakeAll_cons]) (by simpa using totalNeed_poll hp)
     | pend src' h hp =>
       have hN := totalNeed_poll hp
-      have hW : nWaiting k (St.modCons { s1 with src := src', pending := s1.pending ++ [c] } c park)
+      have hW : nWaiting k (St.modCons { s1 with src := src', pending := s1.pending ++ [s1.grp c] } c park)
           = nWaiting k s1 :=
         nWaiting_congr k s1 _ (by
           intro t
           by_cases ht : t = c
           · subst ht; simp [hcw1]
           · simp [ht])
-      have hV : nRunnable k (St.modCons { s1 with src := src', pending := s1.pending ++ [c] } c park)
+      have hV : nRunnable k (St.modCons { s1 with src := src', pending := s1.pending ++ [s1.grp c] } c park)
           = nRunnable k s1 :=
         nRunnable_congr k s1 _ (by
           intro t _
           by_cases ht : t = c
           · subst ht; simp [hcn1]
           · simp [ht])
-      have hsrc : (St.modCons { s1 with src := src', pending := s1.pending ++ [c] } c park).src = src' := rfl
-      simp only [measure, hsrc, hV, hW, hN, hW1]
+      have hsrc : (St.modCons { s1 with src := src', pending := s1.pending ++ [s1.grp c] } c park).src = src' := rfl
+      simp only [measureG, hsrc, hV, hW, hN, hW1]
       rw [← hN1]
       omega
 
@@ -565,14 +665,15 @@ def UsefulRun (k : Nat) : St α → List Label → Prop
 
 /-- Bounded drain: from a state satisfying the wake-up invariant, an executor that only takes useful
 steps (polls woken waiting tasks, lets the pending source deliver events) can take at most
-`measure k s` of them. -/
-theorem usefulRun_length_le {k : Nat} {s : St α} (ls : List Label) (hs : WakeInv none s)
-    (hu : UsefulRun k s ls) : ls.length + measure k (run s ls) ≤ measure k s := by
+`measureG g k s` of them, where no waker is shared by more than `g` of the consumers `< k`. -/
+theorem usefulRun_length_le {g k : Nat} {s : St α} (ls : List Label) (hs : WakeInv none s)
+    (hg : GroupBound g k s.grp)
+    (hu : UsefulRun k s ls) : ls.length + measureG g k (run s ls) ≤ measureG g k s := by
   induction ls generalizing s with
   | nil => simp [run]
   | cons l r ih =>
-    have h1 := measure_decreases hs hu.1
-    have h2 := ih (wakeInv_step l hs) hu.2
+    have h1 := measure_decreases hs hg hu.1
+    have h2 := ih (wakeInv_step l hs) (by rw [step_grp]; exact hg) hu.2
     have h3 : run s (l :: r) = run (step s l) r := rfl
     rw [h3, List.length_cons]
     omega
